@@ -96,7 +96,7 @@ func runC07(tier string, seed uint64, rep *Report) {
 	r := NewRng(seed)
 	g := NewPG(r)
 	g.CancelOdds = 12
-	nA, nB := 500, 2
+	nA, nB := 500, 4
 	if tier == "thorough" {
 		nA, nB = 12000, 20
 	}
@@ -134,26 +134,37 @@ func runC07(tier string, seed uint64, rep *Report) {
 	// ---- B
 	const bound = 400 * time.Millisecond
 	for round := 0; round < nB; round++ {
-		for _, sh := range c07TimedShapes {
+		for si, sh := range c07TimedShapes {
 			w, _ := NewWorld()
 			ast, err := lisp.READ(sh.src, nil, w.Env)
 			if err != nil {
 				panic("harness: " + sh.src + ": " + err.Error())
 			}
 			d := time.Duration(40+r.Intn(120)) * time.Millisecond
-			byDeadline := r.Bool()
+			// how the context ends: its own deadline; an outside cancel with no deadline at all; an outside cancel
+			// while a far-away deadline is also set; the cancellation of a parent context
+			mode := []string{"deadline", "outside cancel", "outside cancel under a far deadline", "parent cancelled"}[(si+round)%4] // every shape meets every mode within four rounds
+			byDeadline := mode == "deadline"
 			var ctx context.Context
 			var cancel context.CancelFunc
-			if byDeadline {
+			switch mode {
+			case "deadline":
 				ctx, cancel = context.WithTimeout(context.Background(), d)
-			} else {
+			case "outside cancel":
 				ctx, cancel = context.WithCancel(context.Background())
 				time.AfterFunc(d, cancel)
+			case "outside cancel under a far deadline":
+				ctx, cancel = context.WithTimeout(context.Background(), time.Hour)
+				time.AfterFunc(d, cancel)
+			default:
+				parent, pcancel := context.WithCancel(context.Background())
+				child, ccancel := context.WithTimeout(parent, time.Hour)
+				ctx, cancel = child, func() { pcancel(); ccancel() }
+				time.AfterFunc(d, pcancel)
 			}
 			start := time.Now()
 			done := make(chan Outcome, 1)
 			go func() { done <- w.Eval(ctx, ast) }()
-			mode := map[bool]string{true: "deadline", false: "outside cancel"}[byDeadline]
 			desc := fmt.Sprintf("%s  under %s after %v", sh.src, mode, d)
 			rep.Histogram[sh.tag]++
 			rep.Histogram["timed:"+mode]++
